@@ -147,12 +147,23 @@ Definition limits (mn mx maxSize : Z) : list Z := subdivisions mn mx (nb_bins (m
 (* the placement area of the density grid built from free rows *)
 Definition grid_area (margin : Z) (free : list rect) : rect := bbox (clip_rows margin free).
 
+(* the placement area DensityGrid::fromIspdCircuit gives its grid (repair of finding F28, density_grid.cpp:45-51):
+   the bounding box of the clipped free rows; when NO free row survives the clipping (rows covered by fixed
+   obstructions, or only pieces not wider than twice the margin left) the bounding box of the circuit's ROWS
+   (Circuit::computePlacementArea, coloquinte.cpp:261-276) -- before the repair that case gave (0,0,0,0) *)
+Definition circuit_grid_area (margin : Z) (rows : list row)
+           (cells : list (Z * Z * Z * Z * orient * bool * bool)) : rect :=
+  let free := map rr (compute_rows_circuit rows [] cells) in
+  match clip_rows margin free with
+  | [] => bbox (map rr rows)
+  | _ :: _ => grid_area margin free
+  end.
+
 (* DensityGrid::fromIspdCircuit from the circuit's rows and cells: computeRows (C15's model), clipping,
-   bounding box, bin limits in x and y *)
+   bounding box (of the clipped rows, or of the circuit's rows when none is left), bin limits in x and y *)
 Definition grid_of_circuit (margin maxSize : Z) (rows : list row)
            (cells : list (Z * Z * Z * Z * orient * bool * bool)) : list Z * list Z :=
-  let free := map rr (compute_rows_circuit rows [] cells) in
-  let a := grid_area margin free in
+  let a := circuit_grid_area margin rows cells in
   (limits (minX a) (maxX a) maxSize, limits (minY a) (maxY a) maxSize).
 
 Local Close Scope Z_scope.
